@@ -108,6 +108,10 @@ def unfinished(res, mon):
 def run_crash(scn, seed, point, downtime):
     """point = ("step", k) crash right after scheduler step k; ("op", j) crash after the j-th engine broker op."""
     state = {"n": 0, "crashed_at": None, "idle": None}
+    if point[0] == "pstep":
+        # the same crash point, with the client's prefetch buffer modelled: messages already pushed to the dying
+        # consumer but not handled yet come back flagged redelivered (fault 'prefetched-unhandled')
+        scn = dict(scn, config=dict(scn["config"], crash_prefetch=1.0))
 
     def before(res):
         sim = res.sim
@@ -121,11 +125,12 @@ def run_crash(scn, seed, point, downtime):
             if node.dead:
                 return
             state["crashed_at"] = sim.now
-            state["situation"] = situation(res, node)
             node.crash("injected")
+            state["situation"] = situation(res, node)
+            state["prefetched"] = len(getattr(sim.broker, "prefetched_marked", []))
             sim.call_later(downtime, restart, None, kind="fault", label="restart")
 
-        if point[0] == "step":
+        if point[0] in ("step", "pstep"):
             def after():
                 if sim.steps == point[1] and state["crashed_at"] is None:
                     state["idle"] = node_idle(sim)
@@ -274,6 +279,18 @@ def situation(res, node):
             typ = find_type_deep(d, st.get("Name") or d.get("StartAt"))
             if typ == "Task" and mid not in sent:
                 out.add("unsent-task-request")
+    # a Task event that sat, pushed but not handled, in the dying client's prefetch buffer is in the same position:
+    # it comes back flagged redelivered although its request was never sent
+    for qname, m in getattr(sim.broker, "prefetched_marked", []):
+        try:
+            ev = json.loads(m.body)
+            st = ev["context"].get("State") or {}       # (a start event published by a client names no state)
+            arn = (ev["context"].get("Execution") or {}).get("Id") or ev["context"]["StateMachine"]["Id"]
+            d = res.scenario["machines"][arn.split(":")[6]]["definition"]
+        except (ValueError, KeyError, TypeError, AttributeError, IndexError):
+            continue
+        if find_type_deep(d, st.get("Name") or d.get("StartAt")) == "Task":
+            out.add("unsent-task-request")
     if se is not None:
         for arn, bm in se.branch_metadata.items():
             for r in bm.results.values():
@@ -332,6 +349,8 @@ def run_one(item, extra):
     points += [("op", j) for j in range(1, len([o for o in info["ops"] if o[0] >= start_step]) +
                                         len([o for o in info["ops"] if o[0] < start_step]) + 1)
                if j > len([o for o in info["ops"] if o[0] < start_step])]
+    psteps = [("pstep", s) for k, (kind_, s) in enumerate(points) if kind_ == "step"]
+    points += psteps if extra["tier"] != "quick" else psteps[::2]
     if extra.get("sample_points") and len(points) > extra["sample_points"]:
         points = rng.sample(points, extra["sample_points"])
     for p in points:
@@ -347,6 +366,10 @@ def run_one(item, extra):
             k = "crash-while-idle" if state["idle"] else "crash-mid-handling"
             total["probes"][k] = total["probes"].get(k, 0) + 1
             total["probes"]["crash-point:" + p[0]] = total["probes"].get("crash-point:" + p[0], 0) + 1
+            if state.get("prefetched"):
+                total["probes"]["crash-with-prefetched-unhandled-messages"] = total["probes"].get(
+                    "crash-with-prefetched-unhandled-messages", 0) + 1
+                total["faults"]["prefetched-unhandled"] = total["faults"].get("prefetched-unhandled", 0) + state["prefetched"]
             redel = sum(1 for o in res.sim.broker.oplog if o[2] == "deliver" and o[4].get("redelivered"))
             total["probes"]["redeliveries"] = total["probes"].get("redeliveries", 0) + redel
             if res.info.get("continued-to-backstop"):
@@ -420,6 +443,7 @@ def multi_case(i, tier):
         else:
             plan.append((kind, rng.randint(1, 8)))        # counted from the restart: lands inside the recovery
     downs = [rng.choice(DOWNTIMES) for _ in plan]
+    cfg["crash_prefetch"] = rng.choice([0.0, 0.0, 0.5, 1.0])     # (drawn last: the cases themselves stay as they were)
     return {"scn": scn, "plan": plan, "downs": downs, "family": fam}, seed
 
 
@@ -442,10 +466,10 @@ def run_multi_case(case, seed):
 
         def do_crash(idle):
             state["crash_idle"].append(idle)
-            state.setdefault("situations", set()).update(situation(res, node))
             if state["recovering"] and plan[state["k"]][0].startswith("recover"):
                 state["in_recovery"] += 1
             node.crash("injected")
+            state.setdefault("situations", set()).update(situation(res, node))
             sim.call_later(downs[state["k"]], restart, None, kind="fault", label="restart")
             state["k"] += 1
             state["crashes"] += 1
@@ -601,7 +625,8 @@ def run_multi(item, extra):
     return {"evaluations": 1, "sim_seconds": res.sim.now - res.sim.epoch, "steps": res.sim.steps,
             "broker_ops": len(res.sim.broker.oplog), "interleavings": [res.sim.order_hash.hexdigest()[:16]],
             "distinct": [common.sha([scn["machines"], case["plan"], res.sim.order_hash.hexdigest()])] if state["crashes"] else [],
-            "faults": {"crash": state["crashes"], "restart": state["restarts"]}, "probes": probes,
+            "faults": {"crash": state["crashes"], "restart": state["restarts"],
+                       "prefetched-unhandled": res.sim.stats.get("prefetched-unhandled", 0)}, "probes": probes,
             "findings": findings, "sample": None}
 
 
